@@ -10,6 +10,9 @@ Rec == ndJsonDeserialize(IOEnv.TRACE)
 
 VARIABLES l, obj, bits, uni, ubits   \* bits[i]: model matrix of sketch i; ubits[u] = [lgk, m]: model of union u
 tvars == <<l, obj, bits, uni, ubits>>
+\* fingerprint of a state = the position in the trace (validation is deterministic: one state per position);
+\* fingerprinting the whole state would cost time proportional to its size at every event
+ViewL == l
 Ev == Rec[l]
 IsEv(op) == l <= Len(Rec) /\ Ev.op = op /\ l' = l + 1
 On(p) == p \in Check
@@ -80,6 +83,12 @@ ObsOK(st, o) ==
   /\ On("C01") => (NonDecreasing(o.b) /\ CpcRelOK(st, o))
   /\ (On("C05") \/ On("C06")) => (o.emp = (st.c = 0) /\ o.c = st.c)
 
+\* the table selectors the writer derives (hook): pseudo-phase and Golomb base bits
+SelOK(st, e) ==
+  /\ e.sel[1] = PseudoPhase(st.lgk, st.c)
+  /\ e.sel[2] = GolombBaseBits(st.lgk, EncodedPairs(st))
+  /\ e.selp = EncodedPairs(st)
+
 TInit == l = 1 /\ obj = <<>> /\ bits = <<>> /\ uni = <<>> /\ ubits = <<>>
 TrRun == IsEv("Run") /\ obj' = <<>> /\ bits' = <<>> /\ uni' = <<>> /\ ubits' = <<>>
 
@@ -94,6 +103,7 @@ TrUpd ==
   /\ obj' = [obj EXCEPT ![Ev.id] = RowCol(@, Ev.rc[1], Ev.rc[2])]
   /\ bits' = [bits EXCEPT ![Ev.id][Ev.rc[1]] = @ \cup {Ev.rc[2]}]
   /\ On("C05") => Sc(obj'[Ev.id]) = Ev.st
+  /\ (On("C12") /\ "sel" \in DOMAIN Ev) => SelOK(obj'[Ev.id], Ev)
   \* raw slots of the pair table (logged after deletions and periodically): every stored pair
   \* must be reachable by its own probe sequence, and the slots hold exactly the surprising pairs
   /\ (On("C05") /\ "ts" \in DOMAIN Ev) =>
@@ -108,6 +118,7 @@ TrChk ==
   /\ (On("C05") \/ On("C06")) => (FullOK(obj[Ev.id], Ev) /\ Matrix(obj[Ev.id]) = bits[Ev.id])
   /\ ObsOK(obj[Ev.id], Ev.o)
   /\ On("C12") => ImgOK(obj[Ev.id], Ev)
+  /\ (On("C12") /\ "sel" \in DOMAIN Ev) => SelOK(obj[Ev.id], Ev)
   /\ On("C18") => Ev.len <= Ev.maxlen \/ Ev.over     \* counted by the driver, see C18
   /\ UNCHANGED <<obj, bits, uni, ubits>>
 
